@@ -465,15 +465,37 @@ Fixpoint alloc_tables (fuel : nat) (ss : Z) (sat msat msatlist : list Z) : resul
       else Ok (sat, msat, msatlist)
   end.
 
-(* Go string comparison: bytewise lexicographic *)
-Fixpoint bytes_ltb (a b : bytes) : bool :=
-  match a, b with
-  | _, [] => false
-  | [], _ :: _ => true
-  | x :: a', y :: b' => if x <? y then true else if y <? x then false else bytes_ltb a' b'
+(* lessDirEnt as coded: NameLength first, then the upper-cased UTF-16 code units of the two NameRunes arrays, index by index.
+   unicode.ToUpper is the toolchain's table as srcgen reads it (go_upper_runs); the conditions and returns are srcgen's. *)
+Fixpoint lookup_upper (runs : list (Z * Z * Z)) (u : Z) : Z :=
+  match runs with
+  | [] => u
+  | (lo, hi, d) :: r => if (lo <=? u) && (u <=? hi) then u + d else lookup_upper r u
   end.
-(* lessDirEnt as coded: NameLength first, then the UTF-8 form of the decoded name, case-sensitively *)
-Definition less_dirent (la lb : Z) (na nb : bytes) : bool := less_dirent_gen la lb (bytes_ltb na nb).
+Definition go_to_upper (u : Z) : Z := lookup_upper go_upper_runs u.
+Definition upper_unit (u : Z) : Z :=
+  if upper_unit_is_surrogate u then u else
+  let r := go_to_upper u in if upper_unit_fits r then r else u.
+Fixpoint less_loop (fuel : nat) (n cap k : Z) (ua ub : list Z) : bool :=
+  match fuel with
+  | O => less_equal_ret
+  | S f =>
+      if less_loop_cond k n cap then
+        let a := upper_unit (nth (Z.to_nat k) ua 0) in
+        let b := upper_unit (nth (Z.to_nat k) ub 0) in
+        if less_unit_differs a b then less_unit_ret a b else less_loop f n cap (k + 1) ua ub
+      else less_equal_ret
+  end.
+Definition name_runes : Z := de_w_NameRunes / 2.      (* len(e.NameRunes) = 32 *)
+(* la, lb = NameLength fields; ua, ub = NameRunes arrays *)
+Definition less_dirent (la lb : Z) (ua ub : list Z) : bool :=
+  if less_len_differs la lb then less_len_ret la lb
+  else less_loop (S (Z.to_nat name_runes)) (less_n la) name_runes 0 ua ub.
+(* on names (code units without the terminator): NameLength = 2 * (units + terminator), array zero padded *)
+Definition relic_less (a b : list Z) : bool :=
+  less_dirent (2 * (zlen a + 1)) (2 * (zlen b + 1)) a b.
+(* code units on which relic's upper-casing is the one of the MS-CFB order as transcribed in upcase *)
+Definition unit_agrees (u : Z) : bool := upper_unit u =? upcase u.
 
 (* unicode/utf16.Decode followed by string(): surrogate pairs combine, lone surrogates become U+FFFD *)
 Definition is_hi (u : Z) : bool := (55296 <=? u) && (u <? 56320).
@@ -494,8 +516,3 @@ Definition utf8_enc (r : Z) : bytes :=
   else if r <? 65536 then [224 + r / 4096; 128 + (r / 64) mod 64; 128 + r mod 64]
   else [240 + r / 262144; 128 + (r / 4096) mod 64; 128 + (r / 64) mod 64; 128 + r mod 64].
 Definition utf8_of_units (l : list Z) : bytes := concat (map utf8_enc (utf16_decode l)).
-(* relic's comparator on the UTF-16 name of an entry (NameLength = 2 * (units + terminator)) *)
-Definition relic_less (a b : list Z) : bool :=
-  less_dirent (2 * (zlen a + 1)) (2 * (zlen b + 1)) (utf8_of_units a) (utf8_of_units b).
-(* names on which case plays no role and UTF-8 is the identity *)
-Definition caseless_ascii (u : Z) : bool := (0 <=? u) && (u <? 128) && (upcase u =? u).
